@@ -1007,7 +1007,7 @@ class RejectGen(Gen):
         r = self.rng
         kind = r.choice(["new-dup", "new-twin", "new-parent", "new-registry", "new-id",
                          "attach-parent", "attach-registry", "attach-rootid", "attach-stale-cid",
-                         "replace-bad", "replace-dup", "replace-parent", "replace-registry", "replace-ancestor",
+                         "replace-bad", "replace-dup", "replace-parent", "replace-registry", "replace-ancestor", "twin-sibling",
                          "rwith-subtree", "rwith-none", "rwith-type", "rwith-attach-parent", "rwith-attach-registry",
                          "rwith-ancestor", "rwith-ancestor", "rwith-self", "rwith-falsy"]
                         + (["tvisit-raise", "tvisit-none", "tvisit-type", "texec-type", "tvisit-detached"]
@@ -1099,6 +1099,35 @@ class RejectGen(Gen):
             if p is None:
                 return None
             return Op(self.uid(), "attach", self.name(p)), label
+        if kind == "twin-sibling":
+            # the receiver has an EARLIER sibling with equal content (same class, values, origin): a rejected replace() /
+            # replace_with() puts the receiver back at ITS position (a roll-back that looks the node up by equality finds the twin)
+            v, tag, org = r.randint(0, 3), r.choice(["", "t"]), r.randint(0, 2)
+            twins = []
+            for _k in range(2):
+                out = self.run(Op(self.uid(), "new", None, {"cls": "LLeaf", "v": v, "tag": tag, "id": None, "org": org, "eu": False,
+                                                           "asdup": False, "det": False, "kids": {}}))
+                if out[0] != "ok" or out[1] is None:
+                    return None
+                twins.append(self.w.objs[out[1]])
+            mid = [self.leaf()] if where == "middle" else []
+            names = [self.name(twins[0])] + [self.name(x) for x in mid if x is not None] + [self.name(twins[1])]
+            if where == "first":
+                extra = self.leaf()
+                names = names + ([self.name(extra)] if extra is not None else [])
+            par = self.mk(r.choice(["LTup", "LLst"]), {"items": names})
+            if par is None:
+                return None
+            if depth > 0:
+                if self.mk("LUn", {"arg": self.name(par)}) is None:
+                    return None
+            recv = twins[1]
+            if r.random() < 0.5:
+                return Op(self.uid(), "replace", self.name(recv), {"changes": {"v": v + 1}, "bad": [r.choice(BAD_KEYS)]}), label
+            p = self.poison_parent() if r.random() < 0.5 else self.poison_registry()
+            if p is None or p is recv:
+                return None
+            return Op(self.uid(), "rwith", self.name(recv), {"new": self.name(p)}), label
         if kind == "replace-ancestor":
             # replace() of an attached inner node with one of its own (non-root) ancestors among the new children: the
             # ancestor has a parent, so the call is rejected (ParentCollision) -- after the receiver was taken out of its
